@@ -325,6 +325,8 @@ def toml_value(v):
 
 PRE_PLAIN = '[package]\nname = "case"\nversion = "0.1.0"\nedition = "2021"\n\n'
 PRE_DECOY = PRE_PLAIN + '[package.metadata.other]\ndefault = "zz"\nlocales = ["zz"]\n\n'
+PRE_COMMENTED = PRE_PLAIN + '# [package.metadata.leptos-i18n]\n# default = "zz"\n# locales = ["zz"]\n\n'
+PRE_MENTION = PRE_PLAIN.replace('edition', 'description = "configured in [package.metadata.leptos-i18n] below"\nedition')
 POST_DEPS = '\n[dependencies]\nserde = "1"\n\n[features]\ndefault = []\n'
 
 
@@ -342,12 +344,25 @@ def manifest_text(cfg):
     """cfg: either the simple form {default, locales, namespaces?, inherits?: [[k,v]..], dir?}
     or the raw form {raw: true, section, fields: [[name, tagged value]..], pre, post} of the Config spec."""
     if cfg.get("raw"):
-        parts = [PRE_DECOY if cfg.get("pre") == "decoy" else PRE_PLAIN]
-        if cfg.get("section", True):
-            parts.append("[package.metadata.leptos-i18n]\n")
-        else:
+        pre, hdr = cfg.get("pre"), cfg.get("hdr", "plain")
+        parts = [{"decoy": PRE_DECOY, "commented": PRE_COMMENTED, "mention": PRE_MENTION}.get(pre, PRE_PLAIN)]
+        fields = list(cfg["fields"])
+        later = []
+        if not cfg.get("section", True):
             parts.append("[package.metadata.not-leptos-i18n]\n")
-        parts += [name + " = " + _tagged_toml(v) + "\n" for name, v in cfg["fields"]]
+        elif hdr == "inline":
+            parts.append("[package.metadata]\nleptos-i18n = { " + ", ".join(name + " = " + _tagged_toml(v) for name, v in fields) + " }\n")
+            fields = []
+        else:
+            parts.append({"spaces": "[ package . metadata . leptos-i18n ]\n", "quoted": '[package.metadata."leptos-i18n"]\n'}
+                         .get(hdr, "[package.metadata.leptos-i18n]\n"))
+            if hdr == "subtable":
+                later = [(n, v) for n, v in fields if "pairs" in v]
+                fields = [(n, v) for n, v in fields if "pairs" not in v]
+        parts += [name + " = " + _tagged_toml(v) + "\n" for name, v in fields]
+        for name, v in later:
+            parts.append("\n[package.metadata.leptos-i18n.%s]\n" % name)
+            parts += ["%s = %s\n" % (k if k.isalnum() else json.dumps(k), json.dumps(x)) for k, x in v["pairs"]]
         if cfg.get("post") == "deps":
             parts.append(POST_DEPS)
         return "".join(parts)
